@@ -231,6 +231,13 @@ func Monitors(h History, tr *Trace) []Failure {
 				add("C15", "C15/pending-entry-fixed-fields", height, "operator %d tokens %s msd %s", p.Oper, p.Tokens, p.MSD)
 			}
 		}
+		// C13 (d): x/slashing's liveness accounting stays consistent whatever the admin does: the missed-block counter is
+		// the number of missed bits recorded in the window
+		for i, g := range s.Sign {
+			if g != nil && g.Present && g.Missed != g.BitMissed {
+				add("C13", "C13/missed-counter-differs-from-bitmap", height, "cons key %d: counter %d, bits %d", i, g.Missed, g.BitMissed)
+			}
+		}
 		// C13 (a): jailed validators are out of the set
 		for id, v := range s.Vals {
 			if v.Jailed {
